@@ -426,6 +426,9 @@ func main() {
 						if !ok {
 							v = "?" + a
 						}
+						if w != "" {
+							w = "^" + w
+						}
 						as = append(as, v+w)
 					}
 					extraWait := 0
